@@ -9,7 +9,7 @@
    no triangle is degenerate, no directed edge is used twice and the reverse of every used directed edge is
    used too — i.e. a closed (boundaryless, 2-manifold-edged), consistently oriented surface. *)
 From PF Require Import Gen.Closed Gen.ClosedProofs Gen.FamilyProofs Gen.Sphere Gen.Hemisphere Gen.Cylinder Gen.Cube
-  Gen.CylinderProofs Gen.SphereProofs Gen.CubeProofs Gen.CylinderGeom Gen.SphereGeom Gen.CylinderVolume Gen.CylinderMono Gen.SphereVolume Gen.HemiVolume Gen.CubeClasses Gen.VolumeLimits Gen.CubeTableProofs Gen.Solids Gen.SphereDistinct Gen.GenProofs.
+  Gen.CylinderProofs Gen.SphereProofs Gen.CubeProofs Gen.CylinderGeom Gen.SphereGeom Gen.CylinderVolume Gen.CylinderMono Gen.SphereVolume Gen.HemiVolume Gen.CubeClasses Gen.VolumeLimits Gen.CubeTableProofs Gen.Solids Gen.SphereDistinct Gen.CylinderClasses Gen.GenProofs.
 From Coq Require Import Reals.
 Open Scope N_scope.
 
@@ -468,6 +468,22 @@ Theorem sphere_vertices_distinct : forall r c rad v w, (2 <= r)%N -> (1 <= c)%N 
   (v < sphere_nverts r c)%N -> (w < sphere_nverts r c)%N -> sph_posR r c rad v = sph_posR r c rad w -> v = w.
 Proof. exact SphereDistinct.sphere_vertices_distinct. Qed.
 Print Assumptions sphere_vertices_distinct.
+
+(* unwelded sphere: fresh vertex k copies welded vertex sphereU_cls k; two fresh vertices are at the same point exactly when
+   sphereU_cls gives them the same welded vertex *)
+Theorem sphereU_classes_from_positions : forall r c rad k k', (2 <= r)%N -> (1 <= c)%N -> 0 < rad ->
+  (k < sphereU_nverts r c)%N -> (k' < sphereU_nverts r c)%N ->
+  (sphU_posR r c rad k = sphU_posR r c rad k' <-> sphereU_cls r c k = sphereU_cls r c k').
+Proof. exact SphereDistinct.sphereU_classes_from_positions. Qed.
+Print Assumptions sphereU_classes_from_positions.
+
+(* capped cylinder: cyl_cls (seam column = column 0, top rim k = column k, bottom rim k = column (n-k) mod n after the half
+   turn, the cap centres on their own) IS the coincidence relation of the generator's real positions *)
+Theorem cyl_classes_from_positions : forall n rad h v w, (1 <= n)%N -> 0 < rad -> 0 < h ->
+  (v < cyl_nverts n)%N -> (w < cyl_nverts n)%N ->
+  (cyl_posR n rad h v = cyl_posR n rad h w <-> cyl_cls n v = cyl_cls n w).
+Proof. exact CylinderClasses.cyl_classes_from_positions. Qed.
+Print Assumptions cyl_classes_from_positions.
 
 (* ---------- coincidence classes of the boxes derived from the real positions ---------- *)
 (* two of the 24 corners of the six-quad box are the same point exactly when cubeQ_cls merges them; the welded
